@@ -88,16 +88,23 @@ def _comp_filters(comp_node, loop_target):
     if not isinstance(comp_node, (ast.ListComp, ast.SetComp,
                                   ast.GeneratorExp)):
         return []
-    if len(comp_node.generators) != 1:
+    if not (isinstance(comp_node.elt, ast.Name)
+            and isinstance(loop_target, ast.Name)):
         return []
-    g = comp_node.generators[0]
-    if not (isinstance(comp_node.elt, ast.Name) and isinstance(
-            g.target, ast.Name) and comp_node.elt.id == g.target.id):
+    bound = set()
+    for g in comp_node.generators:
+        for n in ast.walk(g.target):
+            if isinstance(n, ast.Name):
+                bound.add(n.id)
+    if comp_node.elt.id not in bound:
         return []
-    if not isinstance(loop_target, ast.Name):
-        return []
-    mapping = {g.target.id: ast.Name(loop_target.id, ast.Load())}
-    return [_subst(c, mapping) for c in g.ifs]
+    # other comprehension-bound names keep their names (they are local to
+    # the comprehension); only the element is renamed to the loop variable
+    mapping = {comp_node.elt.id: ast.Name(loop_target.id, ast.Load())}
+    out = []
+    for g in comp_node.generators:
+        out.extend(_subst(c, mapping) for c in g.ifs)
+    return out
 
 
 def _single_assignment(fnode, name):
@@ -220,8 +227,8 @@ def facts(idx: Index, node, stop=None) -> list:
     nline = getattr(node, 'lineno', None)
     for test, pol, line in conds:
         if fnode is not None and nline is not None:
-            killed = _stores_between(fnode, getattr(test, 'end_lineno', line),
-                                     nline)
+            lo = max(getattr(test, 'end_lineno', line) or line, line)
+            killed = _stores_between(fnode, lo, nline)
             # names assigned on the node's own line do not invalidate
             if killed & _names(test):
                 # keep conjuncts that do not mention re-assigned names
